@@ -160,9 +160,15 @@ def shard_map(fn, items, jobs):
 
 # ---------------------------------------------------------------- findings / reporting
 def load_known(pid):
-    p = os.path.join(VERIF, "known_findings.json")
-    if not os.path.exists(p): return []
-    return [e for e in json.load(open(p)).get("findings", []) if e.get("property") == pid and e.get("status") == "known"]
+    files = [os.path.join(VERIF, "known_findings.json")]
+    d = os.path.join(VERIF, "known_findings.d")
+    if os.path.isdir(d):
+        files += sorted(os.path.join(d, f) for f in os.listdir(d) if f.endswith(".json"))
+    out = []
+    for p in files:
+        if not os.path.exists(p): continue
+        out += [e for e in json.load(open(p)).get("findings", []) if e.get("property") == pid and e.get("status") == "known"]
+    return out
 
 
 def write_replay(pid, obj, tag=None):
